@@ -47,6 +47,21 @@ CLAIMS = {
         text="Kernel-checked theorems over the tables and records REGENERATED from arch/*.go on every run (coq/properties/C12.v): no number or name twice in any of the five tables (reflection), lookups mutually inverse, map inversion independent of iteration order, agreement with vendored UAPI / x/sys / Go syscall oracles, audit ids equal AUDIT_ARCH_*, aliases case-insensitive and paired, unsupported architectures rejected. The runtime package is read back in fresh processes and compared with the regenerated data inside Coq.",
         technique="Rocq proof by reflection (vm_compute over regenerated finite tables, lifted by forallb_forall) + generic table lemmas + translator cross-check against the running package",
         ref="DESIGN.md 6 (C12)"),
+    "C13": dict(
+        text="PARTIAL proof. The model's compile is a Gallina function of (byte order, constants, architecture record, policy) - determinism and purity hold of it by construction; kernel-checked theorems (coq/properties/C13.v) show that every place where the Go code iterates over a map cannot leak the iteration order: arch.invert and Action.Unpack give the same result for every permutation of the regenerated tables, the label sweep of updateIndices is order-independent, flag text is computed bit by bit, the cached architecture equals the looked-up one. Tied to the code by compiling generated policies repeatedly, from 16 goroutines on copies sharing slices (harness built with -race) and in several processes, comparing programs byte-wise and the policy before/after.",
+        technique="Rocq proof (permutation invariance of map folds over regenerated tables) + repeated / concurrent / cross-process differential runs under the Go race detector",
+        note="Partial: data-race freedom of the Go execution is observed by the race detector on sampled interleavings of up to 16 goroutines, not proved; the theorems cover order-independence of the map iterations and the functional character of the model. Trusted: Coq kernel, translator, Go race detector, harness.",
+        ref="DESIGN.md 6 (C13)"),
+    "C14": dict(
+        text="Kernel-checked theorems over the name tables, operation list, constants and struct tags REGENERATED from filter.go (coq/properties/C14.v): every documented action name in any letter case parses to exactly the kernel constant, anything else is rejected, printing then parsing a named value gives it back, Unpack is independent of map order, the eight operations behave likewise, and for every field of the policy types the yaml/json keys equal the configuration key. The configuration path (go-ucfg, yaml.v2, encoding/json) is exercised, not modelled: generated policies written as YAML, and marshalled to YAML/JSON, are read back as cmd/sandbox does and must compile to the in-memory policy's program.",
+        technique="Rocq proof over regenerated tables (lookup lemmas, reflection for the tag table) + model-vs-implementation evaluation inside Coq on observed parser outputs + configuration round-trip differential",
+        note="Trusted: Coq kernel, translator, harness. strings.ToLower is modelled for ASCII (non-ASCII inputs are judged against Go's simple case mapping in the search only); go-ucfg, yaml.v2 and encoding/json are third-party code exercised by round trips, not modelled.",
+        ref="DESIGN.md 6 (C14)"),
+    "C16": dict(
+        text="Kernel-checked theorems (coq/properties/C16.v) over an executable model of disasm.go: for every text, architecture record and reader behaviour ExtractSyscalls returns a list or an error and never panics; it returns an error, never a list, when the reader fails after any prefix, the file cannot be opened or a line has 65536 bytes or more; the syscalls found after a function marker do not depend on the text in front of it; appending text at a line boundary keeps every syscall found before; every reported (Num, Name) is an entry of the table of the regenerated record passed in (x32 and all other records without a parser are refused). Tied to the code by record-exact comparison with disasm.ExtractSyscalls on generated files and by comparing the models of bufio.Scanner, regexp, ParseInt and Fields with the library.",
+        technique="Rocq proof over a total Gallina model of the scanner and parser (loop decomposition lemma, checked slice operations for totality) + model/implementation correspondence + site-model oracle search",
+        note="Trusted: Coq kernel, translator (tables), extraction (ExtrOcamlBasic), disasm_driver.ml, harness/disasm.go and generators. Go library functions (bufio.Scanner, regexp, strconv.ParseInt, strings.Fields) are modelled and compared on ~5000 cases per run, not verified. Read failures in mid-file are covered by the theorem only; the implementation run covers a directory, a missing file and scanner errors at every position.",
+        ref="DESIGN.md 6 (C16)"),
     "C17": dict(
         text="PARTIAL proof. Kernel-checked theorems (coq/properties/C17.v) over an executable file-system state machine of doObjdump: the invariant 'every file under a final cache name is complete for the hash in its first line' is preserved by every prefix of a run (crash after any step or inside any write, failing or missing disassembler, I/O error, changing binaries, any buffer size), hence after ANY history the next complete run returns the cold-cache dump or an error; the pre-fix protocol is refuted inside Coq (witness by vm_compute, defect D13). Tied to the real profiler binary by SIGKILL / failing-tool / missing-tool / RLIMIT_FSIZE / planted-file histories whose directory contents and profiles are compared with the extracted model.",
         technique="Rocq proof (invariant by induction over operation prefixes and histories) + extraction-based correspondence with the built profiler + direct search over crash points",
@@ -57,6 +72,11 @@ CLAIMS = {
         technique="Rocq proof (Permutation/Sorted lemmas over an arbitrary-shuffle model of Go maps; corollary of compile_correct) + correspondence with the built profiler + exhaustive table sweep",
         note="Trusted: Coq kernel, translator (tables, constants), extraction, drivers, generators. yaml.v2, go-ucfg and text/template are exercised (the whole amd64 and 386 tables pass through both emitters on every run), not modelled; arm profiles cannot be produced (the disassembly parser refuses arm).",
         ref="DESIGN.md 6 (C18)"),
+    "C19": dict(
+        text="Kernel-checked theorems over the per-target constant records REGENERATED by type-checking package seccomp under every GOOS/GOARCH of `go tool dist list` (coq/properties/C19.v): the package type-checks everywhere; actions, flags, prctl option, seccomp operations and EPERM equal the vendored UAPI values on every target and ENOSYS is the kernel's value for that CPU (89 on Linux/mips*, else 38) - 38 wherever a syscall table exists, so the constant record and hence compile is the same on every target with tables; non-Linux targets compile the stub file, whose functions contain no call and whose Supported returns false; targets without tables get unsupported-arch. Finite domain, decided by reflection.",
+        technique="Rocq proof by reflection over records regenerated with go/types per build context + cross-check of the running build's constants + go build (and vet in the thorough tier) per target",
+        note="Trusted: Coq kernel, the translator and the Go type checker (go/types with the source importer) it calls, vendored UAPI values (linux-libc-dev 6.1; re-read from /usr/include when present). Non-Linux binaries cannot be run here: the stubs are inspected syntactically (no call expression, returned literal).",
+        ref="DESIGN.md 6 (C19)"),
 }
 
 NOT_YET = "check under construction in this session (not yet registered)"
